@@ -413,10 +413,31 @@ def reach_sibling(it, body):
     return rname, lines
 
 
-def load_units():
+def load_units(repo_root=None):
+    """Hand-written units (units/*.rs) plus generated ones (units/*.gen.py, regenerated from the real source each run)."""
+    import importlib.util
+    import tempfile
+    repo_root = repo_root or os.environ.get('VERIF_REPO', '/repo')
     d = os.path.join(VERIF, 'units')
     res = []
     for f in sorted(os.listdir(d)):
         if f.endswith('.rs') and not f.endswith('.kani.rs'):
             res.append(Unit(os.path.join(d, f)))
+        elif f.endswith('.gen.py'):
+            name = f[:-7]
+            spec = importlib.util.spec_from_file_location('gen_' + name, os.path.join(d, f))
+            mod = importlib.util.module_from_spec(spec)
+            spec.loader.exec_module(mod)
+            gd = tempfile.mkdtemp(prefix='rivia-verif-genunit-')
+            gp = os.path.join(gd, name + '.rs')
+            try:
+                try:
+                    text = mod.generate(repo_root)
+                except (LostAnchor, OSError) as e:
+                    text = '//@ unit %s\n//@ props %s\n//@ item lost file=/nonexistent fn=lost\nfn lost() {}\n//@ body\n' % (name, getattr(mod, 'PROPS', 'C13'))
+                open(gp, 'w', encoding='utf-8').write(text)
+                res.append(Unit(gp))
+            finally:
+                import shutil
+                shutil.rmtree(gd, ignore_errors=True)
     return res
